@@ -50,6 +50,15 @@ CHECKS = {
                 "budget.",
         "note": "Tolerance 1e-9*(1+scale) on coordinates; route-length comparison is exact (axis-aligned lanelets).",
     },
+    "C05": {
+        "technique": "property-based testing: Hypothesis-generated objects of every kind x translations x angles (dense "
+                     "near 0 and 0.05); oracle = independently computed rigid motion of every stored point/orientation, "
+                     "invariants (dimensions, areas, lengths) and inverse-motion metamorphic check",
+        "text": "16 facets (one per object kind, up to whole scenarios with any obstacle mix), ~28k generated cases per "
+                "quick run; every public coordinate/orientation compared with R(a)(p+t) within 1e-9. Exploration only.",
+        "note": "Reference rotation uses math.cos/sin; tolerance 1e-9*(1+|p|+|t|); point-mass states at rest (no "
+                "heading) are discarded; traffic-light shape, areas and histories are not claimed components.",
+    },
 }
 
 NOT_APPLICABLE = [{"property_id": p, "reason": "check not built yet (work in progress; will be claimed once its "
